@@ -63,3 +63,35 @@ var verifSeeds = []string{
 	"{|a|b}", "?(a)", "\"\\x41\"", "$'a'[0]", "a>&1", "[&k=v]", "{a,b}", "a^\nb", "a|b;c", "~/x*?",
 	"f &o=1 a", "'a''b'", "a[1][2..]", "x=1 e $x", "(a) # c", "if a { } else { }", "var x = 1", "for x [a] { }",
 }
+
+// VerifC30Late: a Highlighter with command lookup (so results may arrive
+// late): nget calls of Get with codes chosen symbolically from a small set,
+// the lookup answering symbolically, under every schedule within the
+// preemption bound (the "short while" the highlighter waits for the late
+// result may or may not be enough). Every immediate result consists of its
+// code, and once everything has settled the cached result — which is what a
+// late update would show — consists of, and belongs to, the last code.
+func VerifC30Late(nget int) {
+	codes := []string{"a", "b c", ""}
+	hasA, hasB := vrt.Bool("has a"), vrt.Bool("has b")
+	hl := NewHighlighter(Config{HasCommand: func(name string) bool {
+		if name == "a" {
+			return hasA
+		}
+		return hasB
+	}})
+	last := ""
+	for i := 0; i < nget; i++ {
+		code := codes[vrt.Choice("code", len(codes))]
+		text, _ := hl.Get(code)
+		vrt.Assert(verifTextOf(text) == code, "the immediate result consists of exactly the code asked for")
+		last = code
+	}
+	vrt.Settle()
+	hl.cacheMutex.Lock()
+	vrt.Assert(hl.cache.code == last, "the cache belongs to the last code")
+	vrt.Assert(verifTextOf(hl.cache.styledCode) == last, "a late result is only ever shown for the code it was computed for")
+	hl.cacheMutex.Unlock()
+	text, _ := hl.Get(last)
+	vrt.Assert(verifTextOf(text) == last, "the result delivered later consists of exactly the code")
+}
